@@ -21,6 +21,16 @@ CLAIMED = {
   note="Trusted: TLC, tools/jbkdec.py (decoded layout), serde_json for 64-bit values. Creation that fails is accepted only for scenarios marked unrepresentable (store tail > 64 KiB); otherwise it is a violation.",
   technique="TLA+ spec (EntryStore.tla) model-checked with TLC + spec->code replay of its final states + code->spec trace validation (EntryStoreTrace.tla)",
   design="5 C02"),
+ "C03": dict(
+  text="EntryOrder.tla: (order) for every set of byte strings <=3 over {00,61,ff}, every inline prefix 0..3 and both store kinds, the order the writer sorts by (inline prefix, value-store id, length) is the reader's lexicographic order; (find) the binary search of range.rs transcribed step by step is sound, complete, keeps its loop invariant, terminates (liveness under weak fairness) and agrees with the linear scan on every strictly increasing sequence <=7 over 0..8, every window and probe. Initial states are replayed through the real creator/reader (sorted stores, windows, every key and absent keys looked up in both modes through RangeTrait::find with the library's comparator, each compare_entry recorded). EntryOrderTrace.tla accepts only if the store read in position order is non-decreasing in the reader's order of its sort keys, every probe lies inside the window and the result is the entry carrying the key iff one was written; the exact probe sequence is policy level (drift only).",
+  note="Trusted: TLC, the harness's recording comparator (forwards to the library's PropertyCompare, answers ordered() itself because the library hard-wires false). Keys of a sorted store are pairwise distinct (key sets).",
+  technique="TLA+ spec (EntryOrder.tla, safety + liveness) model-checked with TLC + replay of its states + trace validation (EntryOrderTrace.tla)",
+  design="5 C03"),
+ "C15": dict(
+  text="EntryOrder.tla (refs): for every reference graph on 4 entries (forward, backward, self, chains, cycles), every key order, sorted and unsorted, positions are assigned after the final sort and before columns are sized and written: RefsAreFinal, HandlesAreFinal (the variant SizeBeforeAssign=TRUE violates them, shown by the self-test). Every such state and seeded stores of 2..5000 (quick) / 70000 (thorough) entries with references in common and variant parts run through the real creator; EntryOrderTrace.tla accepts only if the handles are a permutation, the entry read at Handle(i) is entry i and its reference column holds Handle(target).",
+  note="Trusted: TLC; positions come from Bound::get() after finalisation, values from the public reader.",
+  technique="TLA+ spec (EntryOrder.tla refs machine) model-checked with TLC + replay + trace validation (EntryOrderTrace.tla)",
+  design="5 C15"),
 }
 
 REASON_TODO = "check not built yet (work in progress; see DESIGN.md section 9 for the order of work)"
